@@ -72,6 +72,9 @@ type report struct {
 	Types      []regType      `json:"types"`
 	Order      []string       `json:"definition_order"`
 	OutSHA     string         `json:"output_sha256"`
+	NetNames   []string       `json:"networks"`
+	NetFailed  []failure      `json:"net_failed"`
+	NetShapes  []overrideInfo `json:"net_shapes"`
 	Effects    []effect       `json:"receiver_writes"`
 	Analysed   int            `json:"methods_analysed"`
 }
@@ -481,7 +484,7 @@ func (t *translator) emit() string {
 	var b strings.Builder
 	b.WriteString("(* GENERATED by verif/translator from the Go sources of /repo on every run. DO NOT EDIT. *)\n")
 	b.WriteString("From Coq Require Import ZArith List Bool String.\nImport ListNotations.\n")
-	b.WriteString("From Verif Require Import Base.Num Base.Stream Base.GenPrelude.\n")
+	b.WriteString("From Verif Require Import Base.Num Base.Stream Base.GenPrelude Kahn.Kahn Kahn.Helpers Kahn.NetPrelude.\n")
 	b.WriteString("Set Implicit Arguments.\nLocal Open Scope Z_scope.\n\n")
 	b.WriteString("Section Gen.\nContext {I T : Type} {N : Num T}.\n\n")
 	done := map[string]bool{}
@@ -516,6 +519,11 @@ func (t *translator) emit() string {
 	for _, n := range t.order {
 		visit(n, nil)
 	}
+	// the networks (C03): value-erased pipeline builders for the functions that are compositions of channel helpers
+	nets, netNames, netFailed, netShapes := t.emitNets()
+	b.WriteString("(* ---- networks (translator/net.go) ---- *)\n\n")
+	b.WriteString(nets)
+	t.rep.NetNames, t.rep.NetFailed, t.rep.NetShapes = netNames, netFailed, netShapes
 	b.WriteString("End Gen.\n")
 	return b.String()
 }
